@@ -252,3 +252,39 @@ def rule_py_bindings(rep, floor=150):
             r.check(ok, key, m.where(call), "call `%s(%s)` in %s matches none of the %d pybind11 signature(s) of %s %s" % (d, ", ".join([str(len(call.args)) + " positional"] + [k.arg + "=" for k in call.keywords if k.arg]), rel, len(cands), name,
                     [b.args for b in cands][:3]), detail="matches a declared overload")
     return r.done()
+
+
+def rule_py_layout_attrs(rep, floor=500):
+    import ast
+    from .. import pyfront as pf
+    r = rep.rule("TABLE.py-layout-attrs", "every attribute the Python layer reads or calls on a layout object (an expression named layout / ending in .layout / ._layout) is a name that src/python/*.cpp binds "
+                 "(.def / .def_property...) or that the package itself defines: a mistyped or renamed method would be an AttributeError at run time", floor=floor)
+    bound = {b.name for b in bindings()}
+    mods = [x for x in pf.all_modules() if "generated_parser" not in x]
+    pym = set()
+    for rel in mods:
+        for n in ast.walk(pf.module(rel).tree):
+            if isinstance(n, (ast.FunctionDef, ast.ClassDef)):
+                pym.add(n.name)
+            if isinstance(n, ast.Assign):
+                for t in n.targets:
+                    if isinstance(t, ast.Attribute):
+                        pym.add(t.attr)
+    cnt = {}
+    for rel in mods:
+        m = pf.module(rel)
+        for c in ast.walk(m.tree):
+            if not isinstance(c, ast.Attribute):
+                continue
+            recv = ast.unparse(c.value)
+            if not (recv in ("layout", "self._layout", "self.layout") or recv.endswith(".layout") or recv.endswith("._layout")):
+                continue
+            if recv in ("ak.layout", "awkward.layout") or recv.endswith("_numba.layout"):
+                continue   # the module ak.layout, not a layout object
+            if c.attr.startswith("__") or c.attr == "setter":
+                continue
+            k0 = (rel, c.attr)
+            cnt[k0] = cnt.get(k0, 0) + 1
+            r.check(c.attr in bound or c.attr in pym, "%s:%s.%s#%d" % (rel, recv[-20:], c.attr, cnt[k0]), m.where(c),
+                    "%s uses `%s.%s`, but no class of the extension module binds `%s` and the package does not define it" % (rel, recv, c.attr, c.attr), detail="bound or defined")
+    return r.done()
